@@ -62,6 +62,39 @@ def interesting(t):
     return any(x in r for x in ("'TD'", "'tuple', ()", "'type'", "'defaultdict'", "Outer.Inner")) or r.count("('G'") >= 2
 
 
+def _other_class(a, b):
+    """a named (importable) class at some position of `a` that is not the very same object at that position of `b`; the two
+    types are already known to be structurally equal"""
+    from .oracle import args, is_anon_td, origin, td_fields
+    if is_anon_td(a) or is_anon_td(b):
+        if is_anon_td(a) and is_anon_td(b):
+            fa, fb = td_fields(a), td_fields(b)
+            for da, db in zip(fa, fb):
+                for k_ in da:
+                    if k_ in db:
+                        r = _other_class(da[k_], db[k_])
+                        if r is not None:
+                            return r
+        return None
+    oa = origin(a)
+    if oa is None:
+        if isinstance(a, type) and isinstance(b, type) and a is not b and (a.__module__, a.__qualname__) == (b.__module__, b.__qualname__):
+            return a
+        return None
+    if oa is Union:
+        return None  # member order is free: identity of union members is covered by the non-union positions of other cases
+    xa, xb = args(a), args(b)
+    if len(xa) != len(xb):
+        return None
+    for u, v in zip(xa, xb):
+        if u is Ellipsis or isinstance(u, (list, tuple)):
+            continue
+        r = _other_class(u, v)
+        if r is not None:
+            return r
+    return None
+
+
 def check_type(ctx, spec, T, label):
     if has_ellipsis(T):
         ctx.label("excluded:Tuple[T,...]")
@@ -76,6 +109,9 @@ def check_type(ctx, spec, T, label):
         return ctx.fail(f"C08/decode-raises:{type(e).__name__}", spec, f"type_from_json({j}) raised {e!r}")
     if canon(T2) != canon(T):
         return ctx.fail("C08/round-trip-differs", spec, f"{show(T)} decoded as {show(T2)} via {j}")
+    other = _other_class(T, T2)
+    if other is not None:
+        return ctx.fail("C08/round-trip-differs", spec, f"{show(T)} decodes to a type that mentions another class object than {other!r} (same module and name, not the same class) via {j}")
     try:
         j2 = type_to_json(T2)
     except Exception as e:
@@ -319,7 +355,7 @@ def shard(ctx):
         if ctx.shard == 2 % ctx.nshards:
             # user classes whose names coincide with builtin types that `builtins` does not export under that name
             from typing import Dict, List, Optional, Type
-            for cls in (fx_basic.NoneType, fx_basic.mappingproxy, fx_basic.NotImplementedType):
+            for cls in (fx_basic.NoneType, fx_basic.mappingproxy, fx_basic.NotImplementedType, fx_basic.Movie):
                 for T in (cls, Type[cls], Optional[cls], List[cls], Dict[str, Optional[cls]], Union[cls, type(None), int]):
                     spec = ["NAMESAKE", cls.__name__, repr(T)]
                     ctx.case(spec, True, ["builtin-namesake-class"])
